@@ -303,7 +303,7 @@ func (e *Enc) typeAssert(fr *Frame, x *ssa.TypeAssert) {
 			e.usedTrusted["iface-nonnil "+typeStr(x.X.Type())] = true
 		}
 		fr.tup[x] = []string{vn, okn}
-		e.astRangeAxiom(fr, x, v, vn, okn)
+		e.astRangeAxiom(fr, x.X.Type(), x.AssertedType, v, vn, okn)
 		return
 	}
 	e.addOb(fr, "SAFE", "typeassert", x.Pos(), e.exprText(x.Pos(), "assert"), ok, false)
@@ -313,7 +313,7 @@ func (e *Enc) typeAssert(fr *Frame, x *ssa.TypeAssert) {
 		e.assumeG("(not (= " + n + " 0))")
 		e.usedTrusted["iface-nonnil "+typeStr(x.X.Type())] = true
 	}
-	e.astRangeAxiom(fr, x, v, n, "true")
+	e.astRangeAxiom(fr, x.X.Type(), x.AssertedType, v, n, "true")
 }
 
 // astIfaceKey: the interfaces of the hcl AST (hcl.Expression, hclsyntax.Expression, hclsyntax.Node, ...) are
@@ -332,15 +332,15 @@ func astIfaceKey(t types.Type) string {
 
 // astRangeAxiom: after x.(*hclsyntax.T) succeeded, x.Range() (an uninterpreted function of the interface
 // value) is what T's own Range method returns (its body is inlined from the pinned hcl source).
-func (e *Enc) astRangeAxiom(fr *Frame, x *ssa.TypeAssert, ifaceTerm, ptrTerm, ok string) {
-	if astIfaceKey(x.X.Type()) != "hclast" || fr.curState == nil || e.quant > 0 {
+func (e *Enc) astRangeAxiom(fr *Frame, ifaceT, assertedT types.Type, ifaceTerm, ptrTerm, ok string) {
+	if astIfaceKey(ifaceT) != "hclast" || fr.curState == nil || e.quant > 0 {
 		return
 	}
-	if _, isPtr := x.AssertedType.Underlying().(*types.Pointer); !isPtr {
+	if _, isPtr := assertedT.Underlying().(*types.Pointer); !isPtr {
 		return
 	}
 	for _, mname := range []string{"Range", "StartRange"} {
-		sel := e.w.prog.MethodSets.MethodSet(x.AssertedType).Lookup(nil, mname)
+		sel := e.w.prog.MethodSets.MethodSet(assertedT).Lookup(nil, mname)
 		if sel == nil {
 			continue
 		}
